@@ -52,7 +52,9 @@ func firstOr(xs []string) string {
 	return xs[0]
 }
 
-func runBounded(repo, verif, prop string) []boundedResult {
+// The tier is handed to the stand-ins as GOVC_TIER: under "thorough" some of them widen their bounds (stated in their
+// header comments and printed in their BOUNDED-SUMMARY line).
+func runBounded(repo, verif, prop, tier string) []boundedResult {
 	files, _ := filepath.Glob(filepath.Join(verif, "bounded", "*.go.txt"))
 	var out []boundedResult
 	for _, f := range files {
@@ -78,7 +80,11 @@ func runBounded(repo, verif, prop string) []boundedResult {
 		ov, _ := json.Marshal(map[string]any{"Replace": map[string]string{filepath.Join(pkgDir, "zz_govc_bounded_test.go"): f}})
 		ovFile := filepath.Join(tmp, "overlay.json")
 		os.WriteFile(ovFile, ov, 0o644)
-		argv := []string{"test", "-tags", "verif", "-overlay", ovFile, "-vet=off", "-count=1", "-v", "-timeout", "300s", "-run", "^TestBounded"}
+		timeout := "300s"
+		if tier == "thorough" {
+			timeout = "1500s"
+		}
+		argv := []string{"test", "-tags", "verif", "-overlay", ovFile, "-vet=off", "-count=1", "-v", "-timeout", timeout, "-run", "^TestBounded"}
 		race := false
 		if src, err := os.ReadFile(f); err == nil && strings.Contains(string(src), "// govc:race") {
 			// the stand-in asks for the race detector (C09): a reported data race is a bounded failure
@@ -87,7 +93,7 @@ func runBounded(repo, verif, prop string) []boundedResult {
 		}
 		cmd := exec.Command("go", append(argv, ".")...)
 		cmd.Dir = pkgDir
-		cmd.Env = append(os.Environ(), "GOFLAGS=-mod=mod", "GOPROXY=off")
+		cmd.Env = append(os.Environ(), "GOFLAGS=-mod=mod", "GOPROXY=off", "GOVC_TIER="+tier)
 		t0 := time.Now()
 		b, _ := cmd.CombinedOutput()
 		os.RemoveAll(tmp)
